@@ -22,6 +22,7 @@ import (
 	"github.com/facebookincubator/dns/dnsrocks/dnsdata"
 	"github.com/facebookincubator/dns/dnsrocks/dnsdata/rdb"
 
+	"verifharness/complib"
 	"verifharness/hlib"
 )
 
@@ -433,6 +434,14 @@ func compileDump(scratch string, text []byte, serial uint32, v2 bool, builder bo
 	return dd, ""
 }
 
+// dropCR is what bufio.ScanLines does to the end of a line
+func dropCR(l []byte) []byte {
+	if len(l) > 0 && l[len(l)-1] == '\r' {
+		return l[:len(l)-1]
+	}
+	return l
+}
+
 func joinLines(ls [][]byte) []byte {
 	var b bytes.Buffer
 	for _, l := range ls {
@@ -493,7 +502,7 @@ func runFile(scratch string, lines [][]byte, v2 bool, serial, preSerial uint32, 
 		codec.Serial = serial
 		codec.Features.UseV2Keys = v2
 		for _, l := range lines {
-			t := bytes.TrimLeft(l, " ")
+			t := bytes.TrimLeft(dropCR(l), " ")
 			if len(t) < 2 || t[0] == '#' {
 				continue
 			}
@@ -521,7 +530,7 @@ func runFile(scratch string, lines [][]byte, v2 bool, serial, preSerial uint32, 
 	}()
 	all := append([][]byte{}, lines...)
 	for _, l := range lines {
-		o.feedLine(bytes.TrimLeft(l, " "))
+		o.feedLine(bytes.TrimLeft(dropCR(l), " "))
 	}
 	for _, l := range fc.Pre {
 		o.feedLine(hlib.Unints(l))
@@ -663,6 +672,13 @@ func run(a *hlib.Args, e *hlib.Emitter) error {
 		}
 		jobs = append(jobs, job{ls, i%2 == 1, 1700000000, 1700000000, "badfile", false})
 	}
+	// white space at the end of pass-through lines (it belongs to the last field), white-space lines the
+	// compiler skips, lines that begin with blanks; and files the compiler rejects because a line begins
+	// with white space other than blanks
+	for i, wsf := range wsFiles() {
+		jobs = append(jobs, job{wsf.lines, i%2 == 1, 1700000000, 1700000000, wsf.class, wsf.wf})
+	}
+	wg2 := complib.NewGen(hlib.NewRng(a.Seed, 91), 3, 6)
 	// one location map with more than 100 range points (the accumulator scanner hands its lines
 	// over in chunks of 100): IPv4, IPv6, and a large map next to small ones
 	for i, kind := range []string{"v4", "v6", "multi"} {
@@ -682,7 +698,26 @@ func run(a *hlib.Args, e *hlib.Emitter) error {
 			class += "-builder"
 		}
 		ls, wf, cl := gf.file()
-		if rf.Chance(1, 6) {
+		if rf.Chance(1, 2) {
+			for k := 1 + rf.Intn(3); k > 0; k-- {
+				pos := rf.Intn(len(ls) + 1)
+				ls = append(ls[:pos:pos], append([][]byte{[]byte(wg2.WsTailLine())}, ls[pos:]...)...)
+			}
+			cl += "-wstail"
+		}
+		if rf.Chance(1, 4) {
+			pos := rf.Intn(len(ls) + 1)
+			ls = append(ls[:pos:pos], append([][]byte{[]byte(wg2.WsSkipLine())}, ls[pos:]...)...)
+			cl += "-wsskip"
+		}
+		if rf.Chance(1, 10) {
+			// the compiler rejects the line (ErrBadRType), the preprocessor writes it through
+			pos := rf.Intn(len(ls) + 1)
+			ls = append(ls[:pos:pos], append([][]byte{[]byte(wg2.WsLeadLine())}, ls[pos:]...)...)
+			wf = false
+			class = "badfile-wslead"
+			cl = ""
+		} else if rf.Chance(1, 6) {
 			// a line the compiler rejects, often first (nothing buffered yet in the preprocessor)
 			bad := badLines[rf.Intn(len(badLines))]
 			pos := 0
